@@ -20,6 +20,7 @@ RULE = ("configuration cases = source {dataset, sample, slow} x transform {none,
         "{devnull, dataset, dataset that does not exist} x trigger {cron, onchange} x job type x handler set {none, log, rerun, "
         "log+rerun, unknown type, 'Log'} (+ kill for the slow source): the whole lattice (thorough, 864 configurations) or the "
         "witnesses plus a PRNG sample of 70 (quick), each through Scheduler.AddJob and the real trigger path in its own process; "
+        "barrier cases = 2-8 requesters for ONE job id (mixed flavours) released together by a spinning gate, 30000 (quick) / 100000 (thorough) rounds each, calling raffle.borrowTicket directly; per round the number of tickets held at once; "
         "raffle cases = pool sizes x job objects (ids shared between objects, both kinds) x 4-12 goroutines x 20-60 Run calls each; "
         "non-trivial = a wrapper is installed or the run does not succeed (configuration) / at least one refused ticket (raffle)")
 TRUSTED = [
@@ -60,6 +61,10 @@ def raffle(capF, capI, jobs, workers, iters):
             "workers": workers, "iters": iters}
 
 
+def barrier(capF, capI, reqs, rounds):
+    return {"kind": "barrier", "capF": capF, "capI": capI, "reqs": list(reqs), "rounds": rounds}
+
+
 def lattice():
     for s, t, k, g, j, h in itertools.product(SRC, TR, SNK, TRIG, JT, HS):
         yield cfg(s, t, k, g, j, h, False)
@@ -82,6 +87,9 @@ def witness_cases():
         cfg(trigger="onchange", handlers="Log", sink="missing"),
         raffle(1, 2, [(0, False), (0, True), (1, False), (2, False), (3, True), (3, True)], 8, 40),
         raffle(5, 10, [(0, False), (0, False), (1, True), (1, False)], 6, 30),
+        # simultaneous requests for ONE job id released by a spinning gate: never two tickets at once
+        barrier(2, 3, [False, True, False, True, False, False, True, False], 30000),
+        barrier(5, 10, [False, False], 30000),
     ]
 
 
@@ -98,17 +106,25 @@ def gen_raffle(rng, count):
     return out
 
 
+def gen_barrier(rng, count, rounds):
+    out = []
+    for _ in range(count):
+        g = rng.range(2, 8)
+        out.append(barrier(rng.range(2, 5), rng.range(2, 10), [rng.chance(1, 3) for _ in range(g)], rounds))
+    return out
+
+
 def gen(rng, tier):
     if tier == "thorough":
-        return list(lattice()) + gen_raffle(rng, 40)
+        return list(lattice()) + gen_raffle(rng, 40) + gen_barrier(rng, 6, 100000)
     lat = list(lattice())
     n = 70 if tier == "quick" else 200
     out = [lat[rng.below(len(lat))] for _ in range(n)]
-    return out + gen_raffle(rng, 12 if tier == "quick" else 40)
+    return out + gen_raffle(rng, 12 if tier == "quick" else 40) + gen_barrier(rng, 1 if tier == "quick" else 4, 30000)
 
 
 DIED = {"accepted": False, "live": "died", "result": "none", "stored": "none", "ticket": False, "log": [], "finalF": -1,
-        "finalI": -1, "running": -1}
+        "finalI": -1, "running": -1, "hist": [], "badAcct": -1}
 
 
 def run(binp, cases):
@@ -137,9 +153,12 @@ def term(c, o):
             log.append("OReturn %d" % e[1])
         else:
             gauge.append("(%s, %s)" % (vlib.coq_bool(e[1] == 1), vlib.zlit(e[2])))
-    return ("{| t_iscfg := %s; t_c := %s; t_capF := %d; t_capI := %d; ob_outcome := %d; ob_accepted := %s; ob_live := %d; "
+    reqs = vlib.coq_list([vlib.coq_bool(x) for x in c.get("reqs", [])])
+    hist = vlib.coq_list([vlib.zlit(x) for x in o.get("hist") or []])
+    return ("{| t_barrier := %s; t_reqs := %s; t_rounds := %d; ob_hist := %s; ob_badacct := %s; t_iscfg := %s; t_c := %s; t_capF := %d; t_capI := %d; ob_outcome := %d; ob_accepted := %s; ob_live := %d; "
             "ob_result := %d; ob_stored := %d; ob_ticket := %s; ob_log := %s; ob_gauge := %s; ob_finalF := %s; ob_finalI := %s; "
             "ob_running := %s |}" % (
+                vlib.coq_bool(c["kind"] == "barrier"), reqs, c.get("rounds", 0), hist, vlib.zlit(o.get("badAcct", -1)),
                 vlib.coq_bool(c["kind"] == "cfg"), cf, capF, capI, 0 if o.get("outcome") == "ok" else 1,
                 vlib.coq_bool(o.get("accepted", False)), LIVE.get(o.get("live"), 9), RES.get(o.get("result"), 9),
                 RES.get(o.get("stored"), 9), vlib.coq_bool(o.get("ticket", False)), vlib.coq_list(log), vlib.coq_list(gauge),
@@ -147,6 +166,8 @@ def term(c, o):
 
 
 def predict_text(c, o):
+    if c["kind"] == "barrier":
+        return "barrier case: every round must grant exactly grant_count (= 1 with non-empty pools) tickets for the id"
     if c["kind"] != "cfg":
         return "raffle case: the observed log must be accepted by Model/Raffle.v (replay)"
     t = term(c, o)
@@ -175,17 +196,23 @@ def attribute(c, o):
 
 
 def size(c):
+    if c["kind"] == "barrier":
+        return 500 + len(c["reqs"])
     return 1 if c["kind"] == "cfg" else 1000 + len(c["jobs"]) * c["workers"] * c["iters"]
 
 
 def classify(c, o):
     if c["kind"] == "cfg":
         return "interesting" if (has_log(c) or o.get("result") != "success" or not o.get("accepted")) else None
+    if c["kind"] == "barrier":
+        return "simultaneous"
     starts = sum(1 for e in o.get("log") or [] if e[0] == 0)
     return "contended" if starts < c["workers"] * c["iters"] else None
 
 
 def tags(c, o):
+    if c["kind"] == "barrier":
+        return ["kind=barrier", "requesters=%d" % len(c["reqs"]), "rounds=%d" % c["rounds"]]
     if c["kind"] == "raffle":
         return ["kind=raffle", "capF=%d" % c["capF"], "capI=%d" % c["capI"]]
     return ["kind=cfg", "source=" + c["source"], "transform=" + c["transform"], "sink=" + c["sink"], "trigger=" + c["trigger"],
